@@ -227,6 +227,32 @@ def corpus_cases(engine):
     return cases
 
 
+def serial_fallback(engine, cases, seed, timeout, first_err):
+    remaining = list(cases)
+    lines = []
+    crashes = 0
+    while remaining:
+        inp = ("\n".join(remaining) + "\n").encode()
+        rc, out, err = run([HARNESS, engine, "serve"], env=dict(GOENV, VERIF_SEED=str(seed), GOMEMLIMIT="8GiB"), inp=inp, timeout=timeout)
+        outs = out.decode(errors="replace").split("\n")
+        if outs and outs[-1] == "":
+            outs.pop()
+        outs = outs[:len(remaining)]
+        lines += [c + " => " + o for c, o in zip(remaining, outs)]
+        k = len(outs)
+        if k >= len(remaining):
+            break
+        text = err.decode(errors="replace")
+        m = re.search(r"^(fatal error: .*|panic: .*|runtime: .*)$", text, re.M)
+        reason = re.sub(r"[^A-Za-z0-9_.:-]+", "_", m.group(1) if m else "exit_%d" % rc)[:120]
+        lines.append(remaining[k] + " => harness-fatal:" + reason)
+        crashes += 1
+        remaining = remaining[k + 1:]
+        if crashes > 25:
+            raise BuildError("harness %s run: more than 25 fatal crashes" % engine, (first_err + err).decode(errors="replace")[-2000:])
+    return lines
+
+
 def run_engine(engine, cases, seed, timeout=7200):
     """returns list of (case, impl_obs, model_obs, verdict, tag)"""
     if not cases:
@@ -234,8 +260,11 @@ def run_engine(engine, cases, seed, timeout=7200):
     inp = ("\n".join(cases) + "\n").encode()
     rc, out, err = run([HARNESS, engine, "run"], env=dict(GOENV, VERIF_SEED=str(seed), GOMEMLIMIT="8GiB"), inp=inp, timeout=timeout)
     if rc != 0:
-        raise BuildError("harness %s run (exit %d)" % (engine, rc), err.decode(errors="replace")[-2000:])
-    impl_lines = [l for l in out.decode(errors="replace").split("\n") if l]
+        # a fatal runtime error (concurrent map access, stack exhaustion, deadlock ...) cannot be recovered inside the harness:
+        # run the cases again one at a time in one process and attribute each crash to the case that was in flight
+        impl_lines = serial_fallback(engine, cases, seed, timeout, err)
+    else:
+        impl_lines = [l for l in out.decode(errors="replace").split("\n") if l]
     if len(impl_lines) != len(cases):
         raise BuildError("harness %s run" % engine, "expected %d lines, got %d" % (len(cases), len(impl_lines)))
     rc, mout, merr = run([MODEL, engine], inp=("\n".join(impl_lines) + "\n").encode(), timeout=timeout)
